@@ -430,7 +430,9 @@ Tokenizer_emit_text_then_stack(Tokenizer *self, const char *text)
 static Py_UCS4
 read_codepoint(TokenizerInput *text, Py_ssize_t index)
 {
-    return PyUnicode_READ(text->kind, text->data, index);
+    Py_UCS4 code = PyUnicode_READ(text->kind, text->data, index);
+
+    return code ? code : INPUT_NUL;
 }
 
 /*
